@@ -76,15 +76,15 @@ func (p *PropDef) check(name string) *CheckDef {
 
 // X is the execution context of one plan.
 type X struct {
-	T   *testing.T
-	C   *Ctx
-	P   *Plan
-	R   *Result
-	Log *Log
-	Def *CheckDef
-	step int
+	T       *testing.T
+	C       *Ctx
+	P       *Plan
+	R       *Result
+	Log     *Log
+	Def     *CheckDef
+	step    int
 	caseSet map[string]bool
-	mu sync.Mutex
+	mu      sync.Mutex
 }
 
 // Violate records a violation.
@@ -362,20 +362,20 @@ func serverMain(t *testing.T, c *Ctx) int {
 
 // ReplayFile is the on-disk form of a minimised failing run.
 type ReplayFile struct {
-	Property  string    `json:"property"`
-	Check     string    `json:"check"`
-	Signature string    `json:"signature"`
-	Detail    string    `json:"detail"`
-	Seed      int64     `json:"seed"`
-	Run       int64     `json:"run"`
-	Plan      *Plan     `json:"plan"`
-	Trace     string    `json:"trace"`
-	GoVersion string    `json:"go_version"`
-	Repo      string    `json:"repo_rev"`
-	Crash     bool      `json:"crash,omitempty"`
-	Original  int       `json:"original_ops"`
-	Minimised int       `json:"minimised_ops"`
-	Note      string    `json:"note,omitempty"`
+	Property  string `json:"property"`
+	Check     string `json:"check"`
+	Signature string `json:"signature"`
+	Detail    string `json:"detail"`
+	Seed      int64  `json:"seed"`
+	Run       int64  `json:"run"`
+	Plan      *Plan  `json:"plan"`
+	Trace     string `json:"trace"`
+	GoVersion string `json:"go_version"`
+	Repo      string `json:"repo_rev"`
+	Crash     bool   `json:"crash,omitempty"`
+	Original  int    `json:"original_ops"`
+	Minimised int    `json:"minimised_ops"`
+	Note      string `json:"note,omitempty"`
 }
 
 func replayMain(t *testing.T, c *Ctx, path string) int {
@@ -609,11 +609,11 @@ type agg struct {
 }
 
 type violRec struct {
-	v     Violation
-	unit  int
-	count int
-	crash bool
-	tail  string
+	v      Violation
+	unit   int
+	count  int
+	crash  bool
+	tail   string
 	replan *Plan
 }
 
@@ -1185,24 +1185,24 @@ func writeEvidence(c *Ctx, pd *PropDef, a *agg, nUnits int, wall float64, nViol 
 		probes[k] = v
 	}
 	cov := map[string]any{
-		"evaluations":         a.evals,
-		"distinct_nontrivial": distinct,
-		"rule":                pd.Rule,
-		"samples":             samples,
-		"exhaustive":          exh,
-		"simulated_runs":      a.runs,
-		"runs_per_hour":       int64(perHour),
-		"seeds":               []int64{c.Seed},
-		"seeds_per_hour":      fmt.Sprintf("one seed (%d) expands to %d runs; %.0f runs/hour", c.Seed, a.runs, perHour),
-		"sim_time_covered_s":  a.simtime,
-		"steps":               a.steps,
-		"faults_fired":        map[string]int64(a.faults),
-		"probes":              probes,
-		"distinct_traces":     len(a.traces),
-		"distinct_schedules":  len(a.scheds),
+		"evaluations":          a.evals,
+		"distinct_nontrivial":  distinct,
+		"rule":                 pd.Rule,
+		"samples":              samples,
+		"exhaustive":           exh,
+		"simulated_runs":       a.runs,
+		"runs_per_hour":        int64(perHour),
+		"seeds":                []int64{c.Seed},
+		"seeds_per_hour":       fmt.Sprintf("one seed (%d) expands to %d runs; %.0f runs/hour", c.Seed, a.runs, perHour),
+		"sim_time_covered_s":   a.simtime,
+		"steps":                a.steps,
+		"faults_fired":         map[string]int64(a.faults),
+		"probes":               probes,
+		"distinct_traces":      len(a.traces),
+		"distinct_schedules":   len(a.scheds),
 		"distinct_plan_shapes": len(a.shapes),
 		"model_states_visited": len(a.states),
-		"runs_per_check":      a.perCheck,
+		"runs_per_check":       a.perCheck,
 		"determinism_rechecks": a.probes["_determinism_rechecks"],
 		"components": map[string]any{
 			"real": []string{"gobl library (all packages of the tree under test)", "internal/cli (Bulk, Build, Sign, Verify, Validate, Correct, Replicate)", "internal/iotools", "cmd/gobl HTTP handlers and cobra commands", "go-jose, yaml, mergo, echo binder"},
